@@ -404,6 +404,241 @@ pub fn exact_shoelace(pts: &[P4]) -> Option<i128> {
     Some(s)
 }
 
+/// Sign of the exact shoelace sum, for ANY finite coordinates: every double is an integer multiple of 2^-1074,
+/// so the sum is computed in arbitrary-precision integers (scaled by 2^e, which does not change its sign).
+/// None if a coordinate is not finite.
+pub fn exact_shoelace_sign(pts: &[P4]) -> Option<i32> {
+    if let Some(s) = exact_shoelace(pts) {
+        return Some(s.signum() as i32);
+    }
+    if pts.iter().any(|p| !p[0].is_finite() || !p[1].is_finite()) {
+        return None;
+    }
+    // common scale per axis: the smallest exponent among the non-zero values
+    let decomp = |v: f64| -> (i128, i32) {
+        // v = m * 2^e with m an integer
+        let bits = v.to_bits();
+        let neg = (bits >> 63) != 0;
+        let exp = ((bits >> 52) & 0x7ff) as i32;
+        let frac = (bits & ((1u64 << 52) - 1)) as i128;
+        let (m, e) = if exp == 0 { (frac, -1074) } else { (frac | (1i128 << 52), exp - 1075) };
+        (if neg { -m } else { m }, e)
+    };
+    let scale = |d: usize| -> i32 { pts.iter().map(|p| decomp(p[d])).filter(|(m, _)| *m != 0).map(|(_, e)| e).min().unwrap_or(0) };
+    let (ex, ey) = (scale(0), scale(1));
+    let big = |v: f64, e0: i32| -> Big {
+        let (m, e) = decomp(v);
+        Big::from_i128(m).shl((e - e0).max(0) as u32)
+    };
+    let mut sum = Big::zero();
+    for w in pts.windows(2) {
+        let (x0, y0, x1, y1) = (big(w[0][0], ex), big(w[0][1], ey), big(w[1][0], ex), big(w[1][1], ey));
+        sum = sum.add(&x1.sub(&x0).mul(&y1.add(&y0)));
+    }
+    Some(sum.sign())
+}
+
+/// True when the trapezoid sum  sum (x1 - x0) * (y1 + y0)  over the ring, evaluated in IEEE doubles in ring
+/// order, is exact at every step (every difference, sum, product and partial sum is representable).  On such
+/// rings any double-precision evaluation of that formula yields the exact area; on the others the sign a
+/// double-precision implementation computes is a matter of rounding.
+pub fn trapezoid_sum_is_exact_in_f64(pts: &[P4]) -> bool {
+    if pts.iter().any(|p| !p[0].is_finite() || !p[1].is_finite()) {
+        return false;
+    }
+    let decomp = |v: f64| -> (i128, i32) {
+        let bits = v.to_bits();
+        let neg = (bits >> 63) != 0;
+        let exp = ((bits >> 52) & 0x7ff) as i32;
+        let frac = (bits & ((1u64 << 52) - 1)) as i128;
+        let (m, e) = if exp == 0 { (frac, -1074) } else { (frac | (1i128 << 52), exp - 1075) };
+        (if neg { -m } else { m }, e)
+    };
+    let scale = |d: usize| -> i32 { pts.iter().map(|p| decomp(p[d])).filter(|(m, _)| *m != 0).map(|(_, e)| e).min().unwrap_or(0) };
+    let (ex, ey) = (scale(0), scale(1));
+    // the double v as a multiple of 2^e0, if it is one
+    let as_big = |v: f64, e0: i32| -> Option<Big> {
+        if !v.is_finite() {
+            return None;
+        }
+        let (mut m, mut e) = decomp(v);
+        if m == 0 {
+            return Some(Big::zero());
+        }
+        while e < e0 {
+            if m & 1 != 0 {
+                return None;
+            }
+            m >>= 1;
+            e += 1;
+        }
+        Some(Big::from_i128(m).shl((e - e0) as u32))
+    };
+    let same = |v: f64, b: &Big, e0: i32| -> bool { matches!(as_big(v, e0), Some(x) if x.eq(b)) };
+    let mut sum_f = 0.0f64;
+    let mut sum_b = Big::zero();
+    for w in pts.windows(2) {
+        let (bx0, by0, bx1, by1) = match (as_big(w[0][0], ex), as_big(w[0][1], ey), as_big(w[1][0], ex), as_big(w[1][1], ey)) {
+            (Some(a), Some(b), Some(c), Some(d)) => (a, b, c, d),
+            _ => return false,
+        };
+        let (dx_f, sy_f) = (w[1][0] - w[0][0], w[1][1] + w[0][1]);
+        let (dx_b, sy_b) = (bx1.sub(&bx0), by1.add(&by0));
+        if !same(dx_f, &dx_b, ex) || !same(sy_f, &sy_b, ey) {
+            return false;
+        }
+        let p_f = dx_f * sy_f;
+        let p_b = dx_b.mul(&sy_b);
+        if !same(p_f, &p_b, ex + ey) {
+            return false;
+        }
+        sum_f += p_f;
+        sum_b = sum_b.add(&p_b);
+        if !same(sum_f, &sum_b, ex + ey) {
+            return false;
+        }
+    }
+    true
+}
+
+/// A minimal arbitrary-precision signed integer (sign + magnitude in 32-bit limbs, little endian).
+#[derive(Clone, Debug)]
+pub struct Big {
+    neg: bool,
+    mag: Vec<u32>,
+}
+
+impl Big {
+    pub fn zero() -> Big {
+        Big { neg: false, mag: vec![] }
+    }
+    fn trim(mut self) -> Big {
+        while self.mag.last() == Some(&0) {
+            self.mag.pop();
+        }
+        if self.mag.is_empty() {
+            self.neg = false;
+        }
+        self
+    }
+    pub fn from_i128(v: i128) -> Big {
+        let mut u = v.unsigned_abs();
+        let mut mag = vec![];
+        while u != 0 {
+            mag.push(u as u32);
+            u >>= 32;
+        }
+        Big { neg: v < 0, mag }.trim()
+    }
+    pub fn shl(&self, n: u32) -> Big {
+        if self.mag.is_empty() {
+            return Big::zero();
+        }
+        let (limbs, bits) = ((n / 32) as usize, n % 32);
+        let mut mag = vec![0u32; limbs];
+        let mut carry = 0u64;
+        for l in &self.mag {
+            let v = ((*l as u64) << bits) | carry;
+            mag.push(v as u32);
+            carry = v >> 32;
+        }
+        if carry != 0 {
+            mag.push(carry as u32);
+        }
+        Big { neg: self.neg, mag }.trim()
+    }
+    fn cmp_mag(a: &[u32], b: &[u32]) -> std::cmp::Ordering {
+        if a.len() != b.len() {
+            return a.len().cmp(&b.len());
+        }
+        for i in (0..a.len()).rev() {
+            if a[i] != b[i] {
+                return a[i].cmp(&b[i]);
+            }
+        }
+        std::cmp::Ordering::Equal
+    }
+    fn add_mag(a: &[u32], b: &[u32]) -> Vec<u32> {
+        let mut out = vec![];
+        let mut carry = 0u64;
+        for i in 0..a.len().max(b.len()) {
+            let v = *a.get(i).unwrap_or(&0) as u64 + *b.get(i).unwrap_or(&0) as u64 + carry;
+            out.push(v as u32);
+            carry = v >> 32;
+        }
+        if carry != 0 {
+            out.push(carry as u32);
+        }
+        out
+    }
+    /// a - b for |a| >= |b|
+    fn sub_mag(a: &[u32], b: &[u32]) -> Vec<u32> {
+        let mut out = vec![];
+        let mut borrow = 0i64;
+        for i in 0..a.len() {
+            let mut v = a[i] as i64 - *b.get(i).unwrap_or(&0) as i64 - borrow;
+            if v < 0 {
+                v += 1 << 32;
+                borrow = 1;
+            } else {
+                borrow = 0;
+            }
+            out.push(v as u32);
+        }
+        out
+    }
+    pub fn neg(&self) -> Big {
+        Big { neg: !self.neg, mag: self.mag.clone() }.trim()
+    }
+    pub fn add(&self, o: &Big) -> Big {
+        if self.neg == o.neg {
+            return Big { neg: self.neg, mag: Big::add_mag(&self.mag, &o.mag) }.trim();
+        }
+        match Big::cmp_mag(&self.mag, &o.mag) {
+            std::cmp::Ordering::Equal => Big::zero(),
+            std::cmp::Ordering::Greater => Big { neg: self.neg, mag: Big::sub_mag(&self.mag, &o.mag) }.trim(),
+            std::cmp::Ordering::Less => Big { neg: o.neg, mag: Big::sub_mag(&o.mag, &self.mag) }.trim(),
+        }
+    }
+    pub fn sub(&self, o: &Big) -> Big {
+        self.add(&o.neg())
+    }
+    pub fn mul(&self, o: &Big) -> Big {
+        if self.mag.is_empty() || o.mag.is_empty() {
+            return Big::zero();
+        }
+        let mut out = vec![0u32; self.mag.len() + o.mag.len() + 1];
+        for (i, a) in self.mag.iter().enumerate() {
+            let mut carry = 0u64;
+            for (j, b) in o.mag.iter().enumerate() {
+                let v = out[i + j] as u64 + (*a as u64) * (*b as u64) + carry;
+                out[i + j] = v as u32;
+                carry = v >> 32;
+            }
+            let mut k = i + o.mag.len();
+            while carry != 0 {
+                let v = out[k] as u64 + carry;
+                out[k] = v as u32;
+                carry = v >> 32;
+                k += 1;
+            }
+        }
+        Big { neg: self.neg != o.neg, mag: out }.trim()
+    }
+    pub fn eq(&self, o: &Big) -> bool {
+        self.neg == o.neg && self.mag == o.mag
+    }
+    pub fn sign(&self) -> i32 {
+        if self.mag.is_empty() {
+            0
+        } else if self.neg {
+            -1
+        } else {
+            1
+        }
+    }
+}
+
 pub fn p4_bits_eq(a: &P4, b: &P4, dims: [bool; 4]) -> bool {
     (0..4).all(|i| !dims[i] || a[i].to_bits() == b[i].to_bits())
 }
